@@ -154,6 +154,41 @@ theorem to_bytes_of_enc (p : RenetVerif.Packet) (bytes : Bytes) (henc : p.enc = 
   rw [if_pos hfit] at ht
   exact ⟨_, forget_eq_ok ht⟩
 
+/-- round trip for the representation of a model packet that is well-formed in the sense of C16 -/
+theorem roundtrip_repr (p : RenetVerif.Packet) (hwf : p.WF) (buf : List Nat) (b' : OctetsMut) (n : Nat)
+    (hw : Src.renet.packet.Packet.to_bytes (reprPacket p) (OctetsMut.with_slice buf) = .ok (b', n)) :
+    n ≤ buf.length ∧ b'.off = n ∧ b'.buf.length = buf.length ∧
+    Src.renet.packet.Packet.from_bytes (Octets.with_slice (b'.buf.take n)) = .ok (⟨b'.buf.take n, n⟩, reprPacket p) := by
+  obtain ⟨bytes, henc, hdec⟩ := C16.packet_roundtrip _ hwf
+  have ht := SrcTie.packet_to_bytes p (OctetsMut.with_slice buf) (Nat.zero_le _) bytes henc
+  rw [hw] at ht
+  simp only [OctetsMut.with_slice, Nat.zero_add, List.take_zero, List.nil_append] at ht
+  have hl : (toNats bytes).length = bytes.length := toNats_length _
+  split at ht
+  · rename_i hfit
+    have := Res.ok.inj ht
+    obtain ⟨hb, hn⟩ := Prod.mk.inj this
+    subst hn
+    subst hb
+    have htake : (toNats bytes ++ List.drop bytes.length buf).take bytes.length = toNats bytes := by
+      rw [List.take_append_of_le_length (by omega), List.take_of_length_le (by omega)]
+    refine ⟨hfit, rfl, by simp [hl]; omega, ?_⟩
+    simp only [htake]
+    have hf := SrcTie.packet_from_bytes [] bytes
+    simp only [List.nil_append, List.length_nil] at hf
+    have hd : RenetVerif.Packet.decode bytes = .ok (p, []) := by
+      obtain ⟨b2, hb2, hd2⟩ := RenetVerif.Packet.decode_enc _ hwf
+      rw [henc] at hb2; cases hb2
+      simpa using hd2 []
+    rw [hd] at hf
+    simp only [List.length_nil, Nat.sub_zero] at hf
+    unfold Octets.with_slice
+    cases hr : Src.renet.packet.Packet.from_bytes ⟨toNats bytes, 0⟩ with
+    | ok a => rw [hr] at hf; simp only [Res.forget] at hf; rw [Res.ok.inj hf]
+    | err e => rw [hr] at hf; cases hf
+    | panic s => rw [hr] at hf; cases hf
+  · cases ht
+
 end RenetVerif.SrcCor
 
 namespace RenetVerif.SrcProps
@@ -191,39 +226,13 @@ theorem packet_roundtrip (gp : SPacket) (h : WfPacket gp) (buf : List Nat) (b' :
     (hw : Src.renet.packet.Packet.to_bytes gp (OctetsMut.with_slice buf) = .ok (b', n)) :
     n ≤ buf.length ∧ b'.off = n ∧ b'.buf.length = buf.length ∧
     Src.renet.packet.Packet.from_bytes (Octets.with_slice (b'.buf.take n)) = .ok (⟨b'.buf.take n, n⟩, gp) := by
-  obtain ⟨bytes, henc, hdec⟩ := C16.packet_roundtrip _ (wf_absPacket h)
-  have ht := packet_to_bytes (absPacket gp) (OctetsMut.with_slice buf) (Nat.zero_le _) bytes henc
-  rw [reprPacket_absPacket gp (wfPacket_bytesOk h), hw] at ht
-  simp only [OctetsMut.with_slice, Nat.zero_add, List.take_zero, List.nil_append] at ht
-  have hl : (toNats bytes).length = bytes.length := toNats_length _
-  split at ht
-  · rename_i hfit
-    have := Res.ok.inj ht
-    obtain ⟨hb, hn⟩ := Prod.mk.inj this
-    subst hn
-    subst hb
-    have htake : (toNats bytes ++ List.drop bytes.length buf).take bytes.length = toNats bytes := by
-      rw [List.take_append_of_le_length (by omega), List.take_of_length_le (by omega)]
-    refine ⟨hfit, rfl, by simp [hl]; omega, ?_⟩
-    simp only [htake]
-    have hf := packet_from_bytes [] bytes
-    simp only [List.nil_append, List.length_nil] at hf
-    have hd : RenetVerif.Packet.decode bytes = .ok (absPacket gp, []) := by
-      obtain ⟨b2, hb2, hd2⟩ := RenetVerif.Packet.decode_enc _ (wf_absPacket h)
-      rw [henc] at hb2; cases hb2
-      simpa using hd2 []
-    rw [hd] at hf
-    simp only [reprPacket_absPacket gp (wfPacket_bytesOk h), List.length_nil, Nat.sub_zero] at hf
-    unfold Octets.with_slice
-    cases hr : Src.renet.packet.Packet.from_bytes ⟨toNats bytes, 0⟩ with
-    | ok a => rw [hr] at hf; simp only [Res.forget] at hf; rw [Res.ok.inj hf]
-    | err e => rw [hr] at hf; cases hf
-    | panic s => rw [hr] at hf; cases hf
-  · cases ht
+  have := roundtrip_repr (absPacket gp) (wf_absPacket h) buf b' n
+    (by rw [reprPacket_absPacket gp (wfPacket_bytesOk h)]; exact hw)
+  rwa [reprPacket_absPacket gp (wfPacket_bytesOk h)] at this
 
-/-- … and a well-formed packet whose encoding fits does get written: on the 1400-byte serialisation buffer every
-    packet that `to_bytes` rejects is longer than the buffer (see `SrcPropsSend` for the packets the channels build:
-    they always fit). -/
+/-- both together: on a fresh buffer of ANY size a well-formed packet is either written and read back as itself, or
+    rejected with `Err(BufferTooShort)` (for the packets the channels build the second case does not occur on a buffer
+    of 1300 bytes: `SrcPropsSendUnrel.send_unrel_packets_fit`, `SrcPropsSendRel.send_rel_packets_roundtrip`). -/
 theorem packet_roundtrip_exists (gp : SPacket) (h : WfPacket gp) (buf : List Nat) :
     (∃ b' n, Src.renet.packet.Packet.to_bytes gp (OctetsMut.with_slice buf) = .ok (b', n) ∧
       Src.renet.packet.Packet.from_bytes (Octets.with_slice (b'.buf.take n)) = .ok (⟨b'.buf.take n, n⟩, gp)) ∨
@@ -250,8 +259,7 @@ theorem packet_from_bytes_fresh_never_panics (l : List Nat) (hl : BytesOk l) :
     NoPanic (Src.renet.packet.Packet.from_bytes (Octets.with_slice l)) :=
   packet_from_bytes_never_panics l hl 0 (Nat.zero_le _)
 
-/-- whatever `from_bytes` accepts is a well-formed packet as far as its payload bytes go, and re-encoding is defined
-    only through `WfPacket`; stated here: an accepted packet consumed a prefix of the input (cursor within bounds). -/
+/-- an accepted packet consumed a prefix of the input: the returned cursor is over the same bytes and within bounds -/
 theorem packet_from_bytes_cursor (l : List Nat) (hl : BytesOk l) (c : Octets) (gp : SPacket)
     (h : Src.renet.packet.Packet.from_bytes (Octets.with_slice l) = .ok (c, gp)) : c.buf = l ∧ c.off ≤ l.length := by
   have hf := packet_from_bytes [] (ofNats l)
